@@ -7,8 +7,8 @@
 (* setup --wipe / configure` command.  The case is accepted iff the laws   *)
 (* of ConfigDeterminismLaws hold of the history; otherwise every violated  *)
 (* clause is printed with the file and the pair of runs that differ.       *)
-(* Digests are hex strings, mtimes decimal strings (TLC ints are 32 bit);  *)
-(* only equality is ever asked of them.                                    *)
+(* Digests are hex strings, stamps ("m") are "st_mtime_ns:st_ino" strings  *)
+(* (TLC ints are 32 bit); only equality is ever asked of them.             *)
 (***************************************************************************)
 EXTENDS ConfigDeterminismLaws, TLC, Json, IOUtils
 
